@@ -16,6 +16,7 @@
  *   audio <path>            raw int16 mono samples
  *   start | end             decoder_start_utt / decoder_end_utt
  *   proc <n> <nosearch> <full> <f32>   feed the next n samples
+ *   poll <align|json0|json1|json2|lattice|hyp|seg>   decoder_alignment / decoder_result_json / decoder_lattice / …
  *   dump <tag>              everything listed above
  */
 #include "common.h"
@@ -323,6 +324,23 @@ static void cmd_proc(int n, int nosearch, int full, int f32)
     printf("proc %d %zu %d %d\n", rv, k, decoder_n_frames(dec), fs ? fs->frame : -99);
 }
 
+/* result accessors a client may call between processing calls (and after the end): none of them may
+ * disturb the frame counters */
+static void cmd_poll(const char *what)
+{
+    fsg_search_t *fs = (fsg_search_t *)dec->search;
+    int rv = 0;
+    if (!strcmp(what, "align")) rv = decoder_alignment(dec) != NULL;
+    else if (!strcmp(what, "json0")) rv = decoder_result_json(dec, 0.0, 0) != NULL;
+    else if (!strcmp(what, "json1")) rv = decoder_result_json(dec, 0.0, 1) != NULL;
+    else if (!strcmp(what, "json2")) rv = decoder_result_json(dec, 0.0, 2) != NULL;
+    else if (!strcmp(what, "lattice")) rv = decoder_lattice(dec) != NULL;
+    else if (!strcmp(what, "hyp")) { int32 sc; rv = decoder_hyp(dec, &sc) != NULL; }
+    else if (!strcmp(what, "seg")) { seg_iter_t *it = decoder_seg_iter(dec); rv = it != NULL; if (it) seg_iter_free(it); }
+    else rv = -9;
+    printf("poll %s %d %d %d\n", what, rv, decoder_n_frames(dec), fs ? fs->frame : -99);
+}
+
 static void cmd_dump(const char *tag)
 {
     fsg_search_t *fs = (fsg_search_t *)dec->search;
@@ -402,6 +420,7 @@ int main(int argc, char **argv)
             int before = fs ? fs->frame : 0, rv = decoder_end_utt(dec);
             printf("end %d %d %d %d\n", rv, fs ? fs->frame - before : 0, decoder_n_frames(dec), fe_reference_frames());
         }
+        else if (!strcmp(w[0], "poll") && n == 2) cmd_poll(w[1]);
         else if (!strcmp(w[0], "dump") && n == 2) cmd_dump(w[1]);
         else printf("bad-op\n");
         fflush(stdout);
